@@ -651,8 +651,12 @@ func (fc *fnCtx) doConvert(ins *ssa.Convert, st *State) {
 		fc.define(ins, App("to_real", x.T), to)
 	case fs == "Ref" && ts == "Ref":
 		fc.define(ins, x.T, to)
+	case fs == "Int" && ts == "String":
+		// string(rune): one byte for ASCII code points (strings are byte sequences here); opaque otherwise
+		w := fc.freshVal(st, "conv", to)
+		fc.define(ins, Ite(And(App("<=", "0", x.T), App("<", x.T, "128")), App("str.from_code", x.T), w.T), to)
 	default:
-		// string <-> []byte, int -> string, float -> int ...: opaque
+		// string <-> []byte, float -> int ...: opaque
 		v := fc.freshVal(st, "conv", to)
 		fc.vals[ins] = v
 		fc.note("conversion %s -> %s treated as opaque", typeKey(from), typeKey(to))
